@@ -32,6 +32,9 @@ type hostileStream struct {
 	Conns [][]string `json:"conns"` // hex chunks per connection
 	Kind  string     `json:"kind"`
 	MPS   uint32     `json:"max_packet_size"`
+	// Concurrent: the hostile connections first subscribe to the reference client's topic; their bytes are then sent while
+	// the reference client publishes a burst, every connection from a goroutine of its own and without waiting in between
+	Concurrent bool `json:"concurrent,omitempty"`
 }
 
 func wire(in decInput, r *vk.Rand) []byte {
@@ -319,6 +322,56 @@ func childC28(args []string) {
 			conns = append(conns, b.Attach())
 			_ = chunks
 		}
+		if idx < nRandom && idx%8 == 5 {
+			hs.Concurrent = true
+			hs.Kind += "+concurrent-with-reference-burst"
+			js, _ = json.Marshal(hs)
+			lf.Truncate(0)
+			lf.Seek(0, 0)
+			lf.Write(js)
+			lf.Sync()
+			for i, c := range conns {
+				c.Version = 4
+				c.Send(&rc.Packet{Type: rc.CONNECT, Version: 4, ProtoLevel: 4, ProtoName: "MQTT", ClientID: fmt.Sprintf("hs%d", i), ConnectFlags: 2}, rc.FormAuto)
+				sp := subscribePkt(uint16(7+i), "ref/t", byte(i%2))
+				sp.Version = 4
+				c.Send(sp, rc.FormAuto)
+			}
+			b.Quiesce(10 * time.Second)
+			var blob []byte
+			for k := 0; k < 40; k++ {
+				pk := publishPkt("ref/t", 1, uint16(61000+k), fmt.Sprintf("burst-%d", k), false)
+				pk.Version = 5
+				blob = append(blob, rc.Encode(pk, rc.FormAuto)...)
+			}
+			var wg sync.WaitGroup
+			wg.Add(1)
+			go func() { defer wg.Done(); ref.d.SendRaw(blob) }()
+			for i, c := range conns {
+				wg.Add(1)
+				go func(c *eng.Client, chunks []string) {
+					defer wg.Done()
+					for _, h := range chunks {
+						ch, _ := hex.DecodeString(h)
+						c.SendRaw(ch)
+					}
+				}(c, hs.Conns[i])
+			}
+			wg.Wait()
+			b.Quiesce(20 * time.Second)
+			// the reference client acknowledges what it was sent during the burst and forgets it
+			for _, rp := range ref.d.Drain() {
+				if rp.P.Type == rc.PUBLISH && rp.P.QoS == 1 {
+					ref.d.Send(&rc.Packet{Type: rc.PUBACK, Version: 5, PacketID: rp.P.PacketID}, rc.FormAuto)
+				}
+			}
+			b.Quiesce(10 * time.Second)
+			ref.d.Drain()
+			counts["concurrent_streams"]++
+			for i := range hs.Conns {
+				hs.Conns[i] = nil // delivered
+			}
+		}
 		// interleave the connections' chunks
 		r := vk.Sub(seed, 2801, uint64(idx))
 		pos := make([]int, len(conns))
@@ -407,7 +460,7 @@ func childC28(args []string) {
 }
 
 func checkC28(c *vk.Ctx) {
-	c.Rule = "child processes host a real broker (MaximumPacketSize 256-4096) with a well-behaved MQTT 5 reference client that publishes numbered QoS 1 messages to a topic it subscribes to and pings; per stream 1-4 hostile in-memory connections send {valid CONNECT v3/v4/v5 | mutated CONNECT | no CONNECT} followed by 1-12 items drawn from: mutated packets (bit flips, inserts, deletes, splices, wrong versions/headers), well-formed packets for other versions, raw random bytes, inconsistent remaining lengths, headers announcing more than the maximum packet size (body withheld or supplied); in addition every well-formed v4/v5 non-CONNECT seed packet is sent behind a valid CONNECT cut short at every offset, as it is and with the continuation bit set on its last remaining byte (thorough: also the broker's catalogue packets, and every byte tampered to 0/0xff/+1/-1), one stream per mutation; chunks are split at arbitrary byte boundaries and interleaved across connections. " +
+	c.Rule = "child processes host a real broker (MaximumPacketSize 256-4096) with a well-behaved MQTT 5 reference client that publishes numbered QoS 1 messages to a topic it subscribes to and pings; per stream 1-4 hostile in-memory connections send {valid CONNECT v3/v4/v5 | mutated CONNECT | no CONNECT} followed by 1-12 items drawn from: mutated packets (bit flips, inserts, deletes, splices, wrong versions/headers), well-formed packets for other versions, raw random bytes, inconsistent remaining lengths, headers announcing more than the maximum packet size (body withheld or supplied); in addition every well-formed v4/v5 non-CONNECT seed packet is sent behind a valid CONNECT cut short at every offset, as it is and with the continuation bit set on its last remaining byte (thorough: also the broker's catalogue packets, and every byte tampered to 0/0xff/+1/-1), one stream per mutation; in every eighth random stream the hostile connections first subscribe to the reference client's topic and then send their bytes, each from its own goroutine, while the reference client publishes a burst of 40 QoS 1 messages; chunks are split at arbitrary byte boundaries and interleaved across connections. " +
 		"Every stream is written to disk before it is sent. Oracles: the child must not die (panic/fatal -> the logged stream is the witness); after delivery the broker must become quiescent (every hostile handler returned or waiting for bytes: not spinning or wedged); the reference client's publish must be acknowledged once and echoed once in order and its PINGREQ answered; a fixed header announcing more than the maximum packet size must end the connection without the body. nontrivial = streams after which at least one hostile connection had been closed by the broker"
 	c.Assumptions = []string{"hostile connections never use the reference client's id (a takeover legitimately ends it)", "quiescence = handler blocked in Read with nothing buffered, or returned"}
 	bin := os.Getenv("VERIF_BIN")
@@ -516,5 +569,6 @@ func checkC28(c *vk.Ctx) {
 	c.MinEvents["reference_rounds_ok"] = int64(total / 2)
 	c.MinEvents["hostile_closed"] = int64(total / 4)
 	c.MinEvents["oversize_probes"] = 32
+	c.MinEvents["concurrent_streams"] = int64(nRandom / 10)
 	c.MinEvents["systematic_streams"] = int64(nSys * 9 / 10)
 }
